@@ -422,6 +422,14 @@ def verify(prog, fn, bb, sink, spec, _facts_override=None):
     if k == "accumulated_read_count":
         # the operand (or each bound of the range operand) is a counter c with c = 0 initially and c += n where n is the
         # count returned by reading into buf[c..]: by the read contract n <= len - c, so c <= len is an inductive invariant
+        if fn.coroutine and not fn.rec.get("inlined") and not spec.get("_no_inline"):
+            # the counter may live in an awaited local async helper (`let n = read_head(..).await`): look at the body with
+            # such helpers spliced in (the caller's block numbers are unchanged)
+            g = prog.awaited_inlined(fn)
+            if g is not fn:
+                ok_, how_ = verify(prog, g, bb, sink, dict(spec, _no_inline=True), _facts_override)
+                if ok_:
+                    return ok_, how_ + " [awaited helpers inlined]"
         ops = []
         for w in spec.get("which", ["arg1", "lhs"]):
             o = sink_operand(sink, w) if sink is not None else None
@@ -434,16 +442,31 @@ def verify(prog, fn, bb, sink, spec, _facts_override=None):
         bounds = st[-1][1][2] if st and st[-1][0] == "agg" and re.search(r"ops::range::Range", st[-1][1][1].get("adt", "") or "") else [ops[0]]
         counters = set()
         lower = []  # start bounds that are `counter.saturating_sub(k)`-style values: checked below to be <= the counter
+        from . import paths as _paths
         for bi_, b in enumerate(bounds):
             bs = fn.origin(b)
             if bs and bs[-1][0] == "const" and const_int(bs[-1][1]) == 0:
                 continue
-            if not bs or bs[-1][0] != "multi" or bs[-1][2]:
-                return False, "operand %s is not a plain counter variable" % describe_origin(fn, bs)
-            if len(bounds) == 2 and bi_ == 0:
-                lower.append(bs[-1][1])
+            if bs and bs[-1][0] == "multi" and not bs[-1][2]:
+                cands = [bs[-1][1]]
             else:
-                counters.add(bs[-1][1])
+                # the value may come out of Option/Result/Poll wrappers built on other paths: every leaf must be the counter
+                lv = _paths.leaf_values(fn, b)
+                cands = []
+                for l in lv:
+                    if l[0] == "const" and const_int(l[1]) == 0:
+                        continue
+                    if l[0] == "place" and not l[2] and l[1] > fn.argc:
+                        cands.append(l[1])
+                    else:
+                        return False, "operand %s is not a plain counter variable" % describe_origin(fn, bs)
+                if not cands:
+                    continue
+            for cnd in cands:
+                if len(bounds) == 2 and bi_ == 0:
+                    lower.append(cnd)
+                else:
+                    counters.add(cnd)
         for l in lower:
             if l in counters:
                 continue
@@ -484,7 +507,12 @@ def verify(prog, fn, bb, sink, spec, _facts_override=None):
             else:
                 return False, "counter _%d is not incremented from itself" % c
             if not origin_matches(fn, other, {"call": spec.get("count_call", r"Future>?::poll$"), "payload": "Ok"}):
-                return False, "the increment of counter _%d is not the count a read returned (%s)" % (c, describe_origin(fn, other))
+                # the count may be bound in several match arms: every value it can hold must be the Ok payload of the poll
+                oop = last[1][3] if other is b else last[1][2]
+                lv = _paths.leaf_values(fn, oop)
+                good = bool(lv) and all(l[0] == "call" and re.search(spec.get("count_call", r"Future>?::poll$"), l[1].callee or l[1].decl or "") and any(pr[0] == "dc" and pr[1] == "Ok" for pr in l[2]) for l in lv)
+                if not good:
+                    return False, "the increment of counter _%d is not the count a read returned (%s)" % (c, describe_origin(fn, other))
             nreads += 1
         # every stream read of the function writes behind the counter: read(&mut buf[c..])
         rds = [x for x in fn.calls() if re.search(spec.get("read_call", r"(AsyncReadExt|ReadExt|AsyncRead)::read$"), x.callee or "") or re.search(spec.get("read_call", r"(AsyncReadExt|ReadExt|AsyncRead)::read$"), x.decl or "")]
